@@ -97,6 +97,8 @@ M("c05-arg-order", "C05", D, "    def icdf(self, prob, alpha=None, beta=None, ga
 M("c05-polarity", "C05", D, "        if gamma is None:\n            gamma = self.gamma\n        return beta, gamma, alpha  # shape, loc, scale", "        if gamma is not None:\n            gamma = self.gamma\n        return beta, gamma, alpha  # shape, loc, scale", rules=["C05.paramflow"])
 M("c05-support", "C05", D, "x_greater_zero = np.where(x > 0, x, np.nan)", "x_greater_zero = np.where(x >= 0, x, np.nan)", rules=["C05.support"])
 M("c05-twin-rename", "C05", D, "        if mu is None:\n            loc = self.mu\n        else:\n            loc = mu\n        if sigma is None:\n            scale = self.sigma", "        if mu is None:\n            loc = self.mu\n        else:\n            loc = mu\n        scale = sigma\n        if sigma is None:\n            scale = self.sigma", expect="pass")
+M("c05-default-not-none", "C05", D, "    def cdf(self, x, alpha=None, beta=None, gamma=None):", "    def cdf(self, x, alpha=None, beta=None, gamma=0):", rules=["C05.siblings"])
+M("c05-parameters-swapped", "C05", D, '        return {"m": self.m, "c": self.c, "lambda_": self.lambda_}', '        return {"m": self.c, "c": self.m, "lambda_": self.lambda_}', rules=["C05.siblings"])
 M("c08-key", "C08", D, "param_values[par_name] = self.conditional_parameters[par_name](given)", "param_values[par_name] = self.conditional_parameters[self.param_names[0]](given)", rules=["C08.values"])
 M("c08-forward", "C08", D, "return self.distribution.icdf(prob, **self._get_param_values(given))", "return self.distribution.cdf(prob, **self._get_param_values(given))", rules=["C08.forward"])
 M("c08-chain-arg", "C08", PR, "2.0445 ** (1 / d_of_x(x))", "2.0445 ** (1 / d_of_x(c))", rules=["C08.chain"])
